@@ -18,12 +18,12 @@ tname=$(basename "$copy_to" .rs)
 # the demo is run with the command its author recorded (it may need --features verif-hooks)
 demo_cmd=$(python3 -c "import json;print(json.load(open('$OUT/meta.json')).get('demo_cmd',''))")
 case "$demo_cmd" in *cargo\ test*) ;; *) demo_cmd="cargo test -p $crate --offline --test $tname";; esac
-cd "$WT" && git checkout -q -- . && git clean -fdq && git checkout -q --detach main
+cd "$WT" && git reset -q --hard && git clean -fdq && git checkout -q --detach main
 # 1. demo on clean tree
 mkdir -p "$(dirname "$copy_to")"; cp "$OUT/demo/$(basename "$copy_to")" "$copy_to" 2>/dev/null || cp "$OUT"/demo/*.rs "$copy_to"
 ( eval "$demo_cmd" ) > "$DEST/demo_clean.log" 2>&1; demo_clean=$?
 # 2. with the patch
-git apply "$OUT/patch.diff" 2>/dev/null || git apply -3 "$OUT/patch.diff" || { echo "patch does not apply to $(git log --format=%h -1)"; git checkout -q -- .; git clean -fdq; exit 2; }
+git apply "$OUT/patch.diff" 2>/dev/null || git apply -3 "$OUT/patch.diff" || { echo "patch does not apply to $(git log --format=%h -1)"; git reset -q --hard; git clean -fdq; exit 2; }
 git reset -q
 ( eval "$demo_cmd" ) > "$DEST/demo_patched.log" 2>&1; demo_patched=$?
 rm -f "$copy_to"; rmdir "$(dirname "$copy_to")" 2>/dev/null
